@@ -88,7 +88,15 @@ def check_cfg(src: str, prop: str = "C04", teal: Any = None) -> Tuple[List[Findi
     n = len(p.ins)
     t0 = time.time()
     if teal is None:
-        teal = parse_only(src)
+        try:
+            teal = parse_only(src)
+        except Exception as ex:  # pylint: disable=broad-except
+            # an assembler-valid structured program for which no graph is produced at all
+            import traceback
+
+            st.nontrivial = True
+            return [Finding(prop, "crash", src, f"parse_teal raised {type(ex).__name__}: {ex} ({traceback.format_exc().strip().splitlines()[-3].strip()})",
+                            None, None, None, "crash", None, True)], st, {"states": 0, "transitions": 0, "blocks": 0}
     st.tealer_s = time.time() - t0
     G = cs.TealerGraph(p, teal.bbs)
     gstats = cs.GStats()
